@@ -59,6 +59,9 @@ type Req struct {
 	Texts     []mon.Q `json:"texts,omitempty"`
 	HeaderKey string  `json:"headerKey,omitempty"`
 	FileName  string  `json:"fileName,omitempty"`
+	// Shadow: for formData parameters, a value of the same name carried in the URL query string
+	// (another location: it must not be looked at)
+	Shadow *mon.Q `json:"shadowQuery,omitempty"`
 }
 
 // Case is a set of declarations (one operation each) and requests.
@@ -584,6 +587,9 @@ func (c *Case) request(rq *Req) (*http.Request, bool) {
 			}
 		}
 	case "formData":
+		if rq.Shadow != nil {
+			target += "?" + url.QueryEscape(d.Name) + "=" + url.QueryEscape(string(*rq.Shadow))
+		}
 		if c.Forms[rq.D] == "multipart" {
 			var buf bytes.Buffer
 			w := multipart.NewWriter(&buf)
@@ -641,6 +647,11 @@ func declClass(d *gen.Param, form string) string {
 }
 
 func presenceClass(d *gen.Param, rq *Req) string {
+	if rq.Shadow != nil {
+		r2 := *rq
+		r2.Shadow = nil
+		return presenceClass(d, &r2) + "+same-name-in-query"
+	}
 	switch {
 	case rq.Absent:
 		return "absent"
@@ -750,7 +761,7 @@ func runCase(m *mon.M, c *Case) {
 	for ri := range c.Reqs {
 		rq := &c.Reqs[ri]
 		d := &c.Decls[rq.D]
-		one := &Case{Decls: []gen.Param{*d}, Forms: []string{c.Forms[rq.D]}, Reqs: []Req{{D: 0, Absent: rq.Absent, Texts: rq.Texts, HeaderKey: rq.HeaderKey, FileName: rq.FileName}}}
+		one := &Case{Decls: []gen.Param{*d}, Forms: []string{c.Forms[rq.D]}, Reqs: []Req{{D: 0, Absent: rq.Absent, Texts: rq.Texts, HeaderKey: rq.HeaderKey, FileName: rq.FileName, Shadow: rq.Shadow}}}
 		req, ok := c.request(rq)
 		if !ok {
 			m.Class("undeliverable")
@@ -764,7 +775,11 @@ func runCase(m *mon.M, c *Case) {
 		rec := httptest.NewRecorder()
 		pv, st := mon.Catch(func() { s.handler.ServeHTTP(rec, req) })
 		m.Eval(1)
-		m.NT(declKey(d, c.Forms[rq.D]) + "|" + pc + "|" + strings.Join(mon.SQ(rq.Texts), "\x00"))
+		shadow := ""
+		if rq.Shadow != nil {
+			shadow = "|q=" + string(*rq.Shadow)
+		}
+		m.NT(declKey(d, c.Forms[rq.D]) + "|" + pc + "|" + strings.Join(mon.SQ(rq.Texts), "\x00") + shadow)
 		descr := func() string {
 			db, _ := json.Marshal(d)
 			return fmt.Sprintf("decl=%s form=%q presence=%s texts=%q headerKey=%q -> status %d body %.140q handler=%d got=%s ; expected: %s", db, c.Forms[rq.D], pc, mon.SQ(rq.Texts), rq.HeaderKey, rec.Code, rec.Body.String(), s.ran, gotCanon(s, d), expString(&exp))
@@ -1211,6 +1226,28 @@ func poolFor(tpe, format string) []string {
 }
 
 func genReqs(r *rand.Rand, di int, d *gen.Param, full bool) []Req {
+	out := genReqsPlain(r, di, d, full)
+	if d.In == "formData" && d.Type != "file" {
+		// the same requests with a same-named value in the URL query string
+		n := len(out)
+		for i := 0; i < n; i++ {
+			if !full && r.Intn(3) != 0 {
+				continue
+			}
+			pool := poolFor(d.Type, d.Format)
+			if d.Type == "array" {
+				pool = poolFor(d.ItemsType, d.ItemsFormat)
+			}
+			sh := mon.Q(pool[r.Intn(len(pool))])
+			c := out[i]
+			c.Shadow = &sh
+			out = append(out, c)
+		}
+	}
+	return out
+}
+
+func genReqsPlain(r *rand.Rand, di int, d *gen.Param, full bool) []Req {
 	var out []Req
 	hk := func() string {
 		if d.In != "header" {
